@@ -3,11 +3,13 @@ package verifinproc
 import (
 	"encoding/json"
 	"fmt"
+	goast "go/ast"
+	"go/constant"
+	goparser "go/parser"
+	gotoken "go/token"
 	"os"
 	"path/filepath"
-	"regexp"
 	"strconv"
-	"strings"
 	"testing"
 
 	"verif.local/h/ev"
@@ -15,53 +17,146 @@ import (
 	"verif.local/h/gen"
 )
 
-var (
-	caseRange = regexp.MustCompile(`^\s*case (\d+) <= r && r <= (\d+):`)
-	caseOne   = regexp.MustCompile(`^\s*case r == (\d+):`)
-)
+// readTransTab reads the rune classes of every state function of a generated
+// lexer/transitiontable.go with go/parser: case tests of the forms
+// "A <= r && r <= B" and "r == A" with A, B integer or character constants.
+// Cases of any other form (imports, a layout this reader does not know) are
+// counted in unread and skipped.
+func readTransTab(src string) (states [][]iv, unread int, err error) {
+	fset := gotoken.NewFileSet()
+	f, err := goparser.ParseFile(fset, "transitiontable.go", src, 0)
+	if err != nil {
+		return nil, 0, err
+	}
+	val := func(e goast.Expr) (rune, bool) {
+		if p, ok := e.(*goast.ParenExpr); ok {
+			e = p.X
+		}
+		lit, ok := e.(*goast.BasicLit)
+		if !ok || (lit.Kind != gotoken.INT && lit.Kind != gotoken.CHAR) {
+			return 0, false
+		}
+		c := constant.MakeFromLiteral(lit.Value, lit.Kind, 0)
+		n, exact := constant.Int64Val(constant.ToInt(c))
+		return rune(n), exact
+	}
+	isR := func(e goast.Expr) bool {
+		id, ok := e.(*goast.Ident)
+		return ok && id.Name == "r"
+	}
+	one := func(e goast.Expr) (iv, bool) {
+		b, ok := e.(*goast.BinaryExpr)
+		if !ok {
+			return iv{}, false
+		}
+		switch b.Op {
+		case gotoken.EQL:
+			if isR(b.X) {
+				if v, ok := val(b.Y); ok {
+					return iv{v, v}, true
+				}
+			}
+			if isR(b.Y) {
+				if v, ok := val(b.X); ok {
+					return iv{v, v}, true
+				}
+			}
+		case gotoken.LAND:
+			l, ok1 := b.X.(*goast.BinaryExpr)
+			r, ok2 := b.Y.(*goast.BinaryExpr)
+			if ok1 && ok2 && l.Op == gotoken.LEQ && r.Op == gotoken.LEQ && isR(l.Y) && isR(r.X) {
+				lo, okl := val(l.X)
+				hi, okh := val(r.Y)
+				if okl && okh {
+					return iv{lo, hi}, true
+				}
+			}
+		}
+		return iv{}, false
+	}
+	goast.Inspect(f, func(n goast.Node) bool {
+		fl, ok := n.(*goast.FuncLit)
+		if !ok {
+			return true
+		}
+		var cur []iv
+		goast.Inspect(fl.Body, func(m goast.Node) bool {
+			cc, ok := m.(*goast.CaseClause)
+			if !ok {
+				return true
+			}
+			for _, e := range cc.List {
+				if c, ok := one(e); ok {
+					cur = append(cur, c)
+				} else {
+					unread++
+				}
+			}
+			return true
+		})
+		states = append(states, cur)
+		return false
+	})
+	return states, unread, nil
+}
 
 // checkTransTab validates the case ranges of every state function of a
-// generated lexer/transitiontable.go: non-empty, sorted, pairwise disjoint.
-func checkTransTab(src string) (states int, classes int, msg string) {
-	var cur []iv
-	inFunc := false
-	flush := func() string {
+// generated lexer/transitiontable.go: non-empty, sorted, pairwise disjoint, and
+// — when the item sets built in process from the same grammar have the same
+// number of states — exactly the classes of the corresponding state.
+func checkTransTab(src string, grammar string) (states int, classes int, msg string) {
+	tab, unread, err := readTransTab(src)
+	if err != nil {
+		return 0, 0, "the generated transitiontable.go is not valid Go: " + err.Error()
+	}
+	_ = unread
+	for si, cur := range tab {
 		for i, c := range cur {
 			if c.Lo > c.Hi {
-				return fmt.Sprintf("state %d: empty class [%d,%d]", states-1, c.Lo, c.Hi)
+				return len(tab), classes, fmt.Sprintf("state %d: empty class [%d,%d]", si, c.Lo, c.Hi)
 			}
 			if i > 0 && cur[i-1].Hi >= c.Lo {
-				return fmt.Sprintf("state %d: classes [%d,%d] and [%d,%d] overlap or are unsorted", states-1, cur[i-1].Lo, cur[i-1].Hi, c.Lo, c.Hi)
+				return len(tab), classes, fmt.Sprintf("state %d: classes [%d,%d] and [%d,%d] overlap or are unsorted", si, cur[i-1].Lo, cur[i-1].Hi, c.Lo, c.Hi)
 			}
 		}
 		classes += len(cur)
-		cur = nil
-		return ""
 	}
-	for _, l := range strings.Split(src, "\n") {
-		if strings.Contains(l, "func(r rune) int {") {
-			if inFunc {
-				if m := flush(); m != "" {
-					return states, classes, m
+	if grammar != "" && unread == 0 {
+		if sets, m := lexerStates(grammar); m == "" && sets.Size() == len(tab) {
+			for si, set := range sets.List() {
+				want := set.SymbolClasses.List()
+				if len(want) != len(tab[si]) {
+					return len(tab), classes, fmt.Sprintf("state %d: the table has %d classes %v, the state's class set has %d: %v", si, len(tab[si]), tab[si], len(want), want)
+				}
+				for k, w := range want {
+					if w.From != tab[si][k].Lo || w.To != tab[si][k].Hi {
+						return len(tab), classes, fmt.Sprintf("state %d: class %d of the table is [%d,%d], the state's class set has [%d,%d]", si, k, tab[si][k].Lo, tab[si][k].Hi, w.From, w.To)
+					}
 				}
 			}
-			inFunc = true
-			states++
-			continue
-		}
-		if m := caseRange.FindStringSubmatch(l); m != nil {
-			a, _ := strconv.Atoi(m[1])
-			b, _ := strconv.Atoi(m[2])
-			cur = append(cur, iv{rune(a), rune(b)})
-		} else if m := caseOne.FindStringSubmatch(l); m != nil {
-			a, _ := strconv.Atoi(m[1])
-			cur = append(cur, iv{rune(a), rune(a)})
 		}
 	}
-	if m := flush(); m != "" {
-		return states, classes, m
+	return len(tab), classes, ""
+}
+
+// tablesOf runs gocc on one grammar text and validates the generated table
+// ("" = fine or not generated).
+func tablesOf(env *ex.Env, grammar string) (states, classes int, msg string, generated bool, err error) {
+	dir, err := env.Root("g")
+	if err != nil {
+		return 0, 0, "", false, err
 	}
-	return states, classes, ""
+	os.WriteFile(filepath.Join(dir, "g.bnf"), []byte(grammar), 0o644)
+	r := env.Run(dir, nil, "-a", "-o", "out", "g.bnf")
+	if r.Exit != 0 {
+		return 0, 0, "", false, nil
+	}
+	b, err := os.ReadFile(filepath.Join(dir, "out", "lexer", "transitiontable.go"))
+	if err != nil {
+		return 0, 0, "", false, err
+	}
+	states, classes, msg = checkTransTab(string(b), grammar)
+	return states, classes, msg, true, nil
 }
 
 // TestC18Tables runs gocc on generated lexical grammars and validates the rune
@@ -77,7 +172,7 @@ func TestC18Tables(t *testing.T) {
 			col.Write(p)
 		}
 	}()
-	n := 40
+	n := 250
 	if os.Getenv("VERIF_TIER") == "thorough" {
 		n = 600
 	}
@@ -86,21 +181,14 @@ func TestC18Tables(t *testing.T) {
 	g := gen.LexGrammar(gen.DefaultLexOpts())
 	for i := 0; i < n; i++ {
 		gm := g.Example(seed*1000000 + shard*10000 + i)
-		dir, err := env.Root("g")
+		states, classes, msg, generated, err := tablesOf(env, gm.Source())
 		if err != nil {
 			t.Fatalf("INFRA: %v", err)
 		}
-		os.WriteFile(filepath.Join(dir, "g.bnf"), []byte(gm.Source()), 0o644)
-		r := env.Run(dir, nil, "-a", "-o", "out", "g.bnf")
-		if r.Exit != 0 {
+		if !generated {
 			col.Class("gocc_nonzero")
 			continue
 		}
-		b, err := os.ReadFile(filepath.Join(dir, "out", "lexer", "transitiontable.go"))
-		if err != nil {
-			t.Fatalf("INFRA: %v", err)
-		}
-		states, classes, msg := checkTransTab(string(b))
 		col.Eval()
 		col.ClassN("generated_states", states)
 		col.ClassN("generated_classes", classes)
